@@ -270,153 +270,156 @@ packet Detail {
     string RuleName `" ++ [35268; 21017; 21517; 31216]%N ++ runes_of_ascii "`,
     u16 Code `" ++ [21407; 22240; 20195; 30721]%N ++ runes_of_ascii "`,
 }")).
-Eval vm_compute in ("<<<M1398>>>" ++ check (runes_of_ascii "packet T {
-    match repeatCount as Packet {
-        ""packet"" : msg_type,
-        00 : Foo,
-        """ ++ [128512]%N ++ runes_of_ascii """ : trueish,
-        """" : repeatCount,
-        [
-            4294967296,
-            65535
-        ] : u,
+Eval vm_compute in ("<<<M1699>>>" ++ check (runes_of_ascii "// a // b
+packet stringy {
+    string zchar,
+    repeat T,
+    match u as charz {
+        007 : float,
+        ""\" ++ [233]%N ++ runes_of_ascii """ : Logon,
+        ""a	b"" : pack,
     },
-    @calculatedFrom(""a\\"")
-    float32 len @lengthOf(string_),
-    stringy Pad,
-    roots {
-        repeat x_y_z `// not a comment`,
-        T `" ++ [233]%N ++ runes_of_ascii "`,
-    },
-    @tag(007)
-    _x {
-        // " ++ [128512]%N ++ runes_of_ascii " emoji
-        char[] body @calculatedFrom(""" ++ [233]%N ++ runes_of_ascii "t" ++ [233]%N ++ runes_of_ascii """),
-        repeat Pad ``,
-    },
-    match u as packetx {
-        // `tick` ""quote"" 'q'
-        [007, ""// no comment""] : T,
-        [""\" ++ [233]%N ++ runes_of_ascii """] : u8x,
-    },
-    @rightPad()
-    int8 _x,
-    @lengthOf(A)
-    match crc as metadata {
-        [
-            00, 3, 1,
-            10, ""a\""b""
-        ] : Packet,
-        //	t
-        [4294967296, ""abc"", """"] : a1,
-        """ ++ [28040; 24687]%N ++ runes_of_ascii """ : repeatCount,
+    match uint8x as roots {
+        1 : len,
     },
 }
 
-options {
+packet zchar {
+    roots options1 `// not a comment`,
+    int64 As,
+    i16 float @lengthOf(falsey) `a\`,
+    int64 msg_type `tab	here`,
+    @tag(0)
+    repeat uint8x,
+    @lengthOf(x)
+    repeat metadata,
+    zchar[0] int,
+    uint64 zchar,
+    zchar[7] msg_type,
+    @calculatedFrom(""" ++ [28040; 24687]%N ++ runes_of_ascii """)
+    crc,
 }
 
-MetaData Header {
-    trueish Pad,
+root packet zchar {
+    repeat leftPad,
 }
 
-MetaData Z9_ {
-    char[] metadata,
-    Header A `doc`,
-    uint32 packetx,
-    int16 uint8x,
-    Header leftPad,
-}")).
-Eval vm_compute in ("<<<M1461>>>" ++ check (runes_of_ascii "  // packet A { u8 x, }
-	root packet	leftPad
-{ 
-@calculatedFrom(
+packet A {
+    @lengthOf(string_)
+    x @lengthOf(options1) `two words`,
+    string len,
+}
 
-//x
-  	""`tick`""
-	)
-@rightPad
+packet falsey {
+    i64_ @calculatedFrom(""{,}""),
+    repeat string chars,
+    zchar[7] calculatedFrom,
+    Header {
+        char u `two words`,
+        repeat char[] tag `say ""hi""`,
+        Z9_ @lengthOf(T) `line1
+        line2`,
+    },
+    msg_type @calculatedFrom(""// no comment""),
+    @rightPad('\x00')
+    @lengthOf(asx)
+    falsey,
+}// packet A { u8 x, }")).
+Eval vm_compute in ("<<<M1331>>>" ++ check (runes_of_ascii "  options { 
+FixedStringPadFromLeft 
+=	true;
 
-    ( ) 
-// " ++ [128512]%N ++ runes_of_ascii " emoji
+FixedStringPadChar =
+    '0' ;
+} packet
+Leg{	InPrice0 { 
+repeat string clOrdID ,
 
-  string_
+    int16 msgKind
+, 
+zchar[
 
-// `tick` ""quote"" 'q'
-// a // b
-	@lengthOf( tag
-)`a\`
+    5  ]	Px
 
-,  i64 T`" ++ [233]%N ++ runes_of_ascii "` , 	 //	t
-	  }
+    ,
+} 
+,
+i16  f1 ,
+repeat 
+f64 Side2
 
-packet
-    Pad// @lengthOf(
-		{  @lengthOf( 
-float
-	) 
-char[]
-	x
-    @calculatedFrom(
+    , string 
+Acct	,
+} 
+packet Cancel { zchar[ 4
 
-    ""a\""b"" )
-	,// trailing space 
+    ]clOrdID ,	string
+	seqNo  ,
 
-@tag(	0 // " ++ [128512]%N ++ runes_of_ascii " emoji
-	) // " ++ [27880; 37322]%N ++ runes_of_ascii "
-repeatCount // packet A { u8 x, }
-    	,repeat
-	rootA 
-{
-_x	, zchar[
-3 ] 
-roots
-/// triple
-  	`crlf
-line` , }
+    Leg,	@leftPad
+    ('0' ) char[ 11  ] OrderId 
+,	}
+    packet Quote  {
+    repeat
+	char[
 
-    , 
-    /// triple
-	// a // b
+4]
+	sym 
+,
 
-match 
-metadata
-as BodyLength	{
-    [
-// c
-  10
+    f64
+	OrderId  ,
+    repeat
+Leg ,repeat
+i64 f1 , int16 Note ,  zchar[3
+	]
+	count ,
+	}root	packet Ack
+{ @leftPad	(
+' ')	char[
+
+    10 ] 
+sym
+	, InPx60	{Cancel
 
 ,
-	10
-	, ""a\""b"",
-    """"
-    ,""\n""
-	, ""a\\""
 
-, 
-4294967296	]  :u, } , repeat
-    i64_ Packet
-`" ++ [28040; 24687; 31867; 22411]%N ++ runes_of_ascii "`	,  @tag( 	 // packet A { u8 x, }
-  	65535) char[] 
-float
+repeat
+char[  1
+]
 
-`it's`,	char[
-7
-]x@calculatedFrom(	""{,}"" )
-,}MetaData
+    f1 , string Tail,
+    repeat
 
-leftPad // a // b
-    {body
+InNote55
+    {  int8
+	count, f64	f1,repeat  Cancel
+    ,
+} ,	char[] 
+tag7
 
-    rootA
-`crlf
-line`,
-int64
+,	repeat
 
-    msg_type `doc`,	// @lengthOf(
-  }
+    string
+msgKind ,
+}
+, u8
+lastPx
+	,
+match 
+lastPx as Body
+{
+152
 
-")).
+:	Quote ,173 : Cancel ,
+
+4
+	:
+Leg
+, }
+
+    ,	u16 Ref
+@calculatedFrom( ""CRC32"")	, } ")).
 Eval vm_compute in ("<<<M1321>>>" ++ check (runes_of_ascii "// top
 packet // c0
 P1
@@ -646,48 +649,33 @@ root packet int {
     //
     Z9_ zchar `a\`,
 }//x")).
-Eval vm_compute in ("<<<M1237>>>" ++ check (runes_of_ascii "// top
-options // c0
-{ // c1
-zchar // c2
-= // c3
-true // c4
-; // c5
-Pad // c6
-= // c7
-char[ // c8
-00 // c9
-] // c10
-a1 // c11
-= // c12
-uint32 // c13
-BodyLength // c14
-= // c15
-true // c16
-; // c17
-} // c18
-root // c19
-packet // c20
-T // c21
-{ // c22
-@lengthOf( // c23
-repeatCount // c24
-) // c25
-@tag( // c26
-1 // c27
-) // c28
-@calculatedFrom( // c29
-""a	b"" // c30
-) // c31
-string // c32
-stringy // c33
-@calculatedFrom( // c34
-""\n"" // c35
-) // c36
-`u8 x,` // c37
-, // c38
-} // c39
-")).
+Eval vm_compute in ("<<<M334>>>" ++ check (runes_of_ascii "MetaData pack {
+int16 rootA `{ , }` ,
+    //	t
+    int16 // c
+x,// " ++ [27880; 37322]%N ++ runes_of_ascii "
+u32 msg_type,
+    }
+packet i64_
+    {// trailing space 
+@leftPad
+    ( '0') @rightPad ( '\x00' // packet A { u8 x, }
+)
+@lengthOf(options1	)
+    string body @lengthOf( asx) `" ++ [233]%N ++ runes_of_ascii "` ,
+    }
+options { msg_type
+    //	t
+    = 00//
+;} MetaData
+    stringy// c
+{
+    zchar MetaDataX `line1
+line2` , char[255] len `it's` , f32 pack ,
+    uint16 Foo
+`it's` , int16 i64_`two words` ,
+    // `tick` ""quote"" 'q'
+    }")).
 Eval vm_compute in ("<<<M1192>>>" ++ check (runes_of_ascii "// top
 MetaData
     // c0
@@ -838,26 +826,34 @@ root packet Frame {
         0 : Logout,
     },
 }")).
-Eval vm_compute in ("<<<M287>>>" ++ check (runes_of_ascii "root // trailing space 
-packet int {
-    f32a @calculatedFrom(""packet"" )
-    `
-`
-    , } options
-{
-    rootA
-    // @lengthOf(
-    =
-""\" ++ [233]%N ++ runes_of_ascii """; }
-    packet
-i8i8 {
-    // trailing space 
-    uint8
-    uint8x
-    @lengthOf( string_ ) //	t
-, i32 tag //	t
-@lengthOf(
-Logon )  , }")).
+Eval vm_compute in ("<<<M1495>>>" ++ check (runes_of_ascii "options
+
+    {pack  // `tick` ""quote"" 'q'
+=
+    0123456789
+
+} 
+packet 
+metadata 
+{ @leftPad
+    (	' ' ) stringy 
+@lengthOf( _x
+
+    )
+, 
+repeat
+u8 int
+	`{ , }` ,@leftPad  //	t
+  ( '0'
+
+    )repeat 
+char  msg_type `it's` 
+,  }
+MetaData x_y_z
+{  // trailing space 
+
+	}
+")).
 Eval vm_compute in ("<<<M1594>>>" ++ check (runes_of_ascii "root packet i8i8 {
     @tag(4294967296)
     // packet A { u8 x, }
